@@ -205,6 +205,9 @@ static const char *opname[] = { "put(a)", "put(b)", "get", "clear", "override(on
         memset(&m, 0, sizeof m);                                                                                    \
         m.cap = cap;                                                                                                \
         NAME##_init(&rb, data, cap);                                                                                \
+        TYPE bydata[3];                                                                                             \
+        NAME by;                                                                                                    \
+        NAME##_init(&by, bydata, 3);                                                                                \
         uint64_t next = 1;                                                                                          \
         int bias = (int)vh_below(r, 3); /* fill-heavy, drain-heavy, balanced */                                     \
         char hist[200];                                                                                             \
@@ -245,6 +248,22 @@ static const char *opname[] = { "put(a)", "put(b)", "get", "clear", "override(on
                 snprintf(ctx, sizeof ctx, "cap=%zu step %zu override(%d)", cap, i, on);                             \
                 VH_COUNT("history: override change");                                                               \
                 if (hl < 150) hl += (size_t)snprintf(hist + hl, sizeof hist - hl, on ? "O" : "o");                  \
+            }                                                                                                       \
+            /* a second ring of the same type is used in between, iterated while the first one's state is     \
+             * live: whatever ring or iterator code keeps must live in the objects */                              \
+            if ((i % 5) == 2) {                                                                                     \
+                TYPE b1 = (TYPE)(next * 3u + 1u), b2 = (TYPE)(next * 5u + 2u);                                      \
+                NAME##_put(&by, b1);                                                                                \
+                NAME##_put(&by, b2);                                                                                \
+                rb_iter bit;                                                                                        \
+                size_t bn = 0;                                                                                      \
+                for (NAME##_iter(&bit, &by, RING_BUFFER_ITER_OLD_TO_NEW); !rb_iter_done(&bit) && bn < 4; rb_iter_advance(&bit)) \
+                    bn++;                                                                                           \
+                TYPE g1 = NAME##_get(&by), g2 = NAME##_get(&by);                                                    \
+                if (bn != 2 || g1 != b1 || g2 != b2 || !NAME##_empty(&by))                                          \
+                    vh_fail("second-ring", "type=" TAG, "%s: a second ring used in between: %zu iterator steps, got %" PRIx64 ",%" PRIx64 \
+                            " expected %" PRIx64 ",%" PRIx64, ctx, bn, (uint64_t)g1, (uint64_t)g2, (uint64_t)b1, (uint64_t)b2); \
+                VH_COUNT("history: second ring used in between");                                                   \
             }                                                                                                       \
             if (m.n == m.cap && m.override)                                                                         \
                 VH_COUNT("history: observed full in override mode");                                                \
